@@ -122,7 +122,9 @@ class Serial(Harness):
                 return self.fluent_case(ch, params["fluent"])
             n, fmt = params["n"], params["fmt"]
             payloads = (JSON_PAYLOADS if fmt == "json" else PY_PAYLOADS)[-params.get("npayloads", 9):]
-            spec = graphgen.gen_spec(ch, n, payloads, max_inputs=params.get("max_inputs", 2))
+            # input names are the node author's to choose: also names that parameters of the reader's helpers happen to have
+            in_names = ch.choose([("x", "y"), ("data", "node_factory")], "input_names") if n == 2 else ("x", "y")
+            spec = graphgen.gen_spec(ch, n, payloads, max_inputs=params.get("max_inputs", 2), input_names=in_names)
             names = [f"n{j}" for j in range(n)]
             g, nodes = graphgen.build(spec, names)
             want = graphgen.spec_structure(spec, names)
